@@ -408,7 +408,17 @@ impl CompileError for TyperExternalError {
                 Severity::Error,
             ),
             TyperError::UnknownType(et, loc) => w.write_message(
-                &|f| write!(f, "unknown type name: {et:?}"),
+                &|f| {
+                    // Print the name as it is written in the source
+                    // The debug form of the syntax tree holds source offsets which do not belong in a message
+                    match et {
+                        ErrorType::Untyped(ty) => write!(f, "unknown type name '{}'", ty.layout.0),
+                        ErrorType::Value(id) => {
+                            write!(f, "unknown type name '{}'", get_type_string(*id, context))
+                        }
+                        _ => write!(f, "unknown type name"),
+                    }
+                },
                 *loc,
                 Severity::Error,
             ),
